@@ -82,6 +82,10 @@ func readerZoo(r *rand.Rand, x []byte, dir string) []zooReader {
 		{"a plain io.Reader (no other methods)", func() io.Reader { return struct{ io.Reader }{bytes.NewReader(x)} }},
 	}
 	zoo = append(zoo, zooReader{"a source whose Seek method always fails", func() io.Reader { return &failingSeeker{bytes.NewReader(x)} }})
+	zoo = append(zoo,
+		zooReader{"a refilling stream buffer whose Len() is what it holds right now (37 bytes at most)", func() io.Reader { return &streamBuf{data: x, window: 37} }},
+		zooReader{"a refilling stream buffer whose Len() and Size() are what it holds right now (4096 bytes at most)", func() io.Reader { return &sizedStreamBuf{streamBuf{data: x, window: 4096}} }},
+		zooReader{"a source with a Len() that counts what is left plus what follows its section", func() io.Reader { return &overLen{bytes.NewReader(x), len(suf)} }})
 	if len(x) < 60000 { // fits a pipe's buffer: written at once, then the write end is closed
 		zoo = append(zoo, zooReader{"the read end of an os.Pipe (an *os.File that cannot seek)", func() io.Reader {
 			pr, pw, err := os.Pipe()
@@ -119,12 +123,18 @@ func readerZoo(r *rand.Rand, x []byte, dir string) []zooReader {
 
 // c06ReaderZoo: every format, well-formed and arbitrary inputs, decoded through
 // every reader of the zoo and compared with the decode from a fresh bytes.Reader.
-func c06ReaderZoo(c *Ctx) {
-	per := c.N(60, 1500)
+func c06ReaderZoo(c *Ctx) { zooCases(c, c06Formats, c.N(60, 1500)) }
+
+// zooUnit is the same for the formats of one property.
+func zooUnit(formats ...string) func(c *Ctx) {
+	return func(c *Ctx) { zooCases(c, formats, c.N(60, 1500)) }
+}
+
+func zooCases(c *Ctx, formats []string, per int) {
 	dir, _ := os.MkdirTemp("", "c06-zoo-")
 	defer os.RemoveAll(dir)
 	idx := int64(0)
-	for _, f := range c06Formats {
+	for _, f := range formats {
 		cd := codecByName(f)
 		for i := 0; i < per; i++ {
 			c.Case(idx, func(k *K) {
@@ -186,3 +196,35 @@ func (f *failingSeeker) Read(p []byte) (int, error) { return f.r.Read(p) }
 func (f *failingSeeker) Seek(int64, int) (int64, error) {
 	return 0, &os.PathError{Op: "seek", Path: "|0", Err: fmt.Errorf("illegal seek")}
 }
+
+// streamBuf is a buffer in front of a stream (a socket's receive buffer, a ring
+// buffer being filled by another part of the program): Len() is the number of
+// bytes it holds NOW — more arrive as it is read. It satisfies the same
+// interface{ Len() int } as *bytes.Buffer and *strings.Reader.
+type streamBuf struct {
+	data   []byte
+	window int
+}
+
+func (s *streamBuf) Len() int { return min(len(s.data), s.window) }
+func (s *streamBuf) Read(p []byte) (int, error) {
+	if len(s.data) == 0 {
+		return 0, io.EOF
+	}
+	n := copy(p, s.data[:s.Len()])
+	s.data = s.data[n:]
+	return n, nil
+}
+
+type sizedStreamBuf struct{ streamBuf }
+
+func (s *sizedStreamBuf) Size() int64 { return int64(s.Len()) }
+
+// overLen: Len() of a view into something larger that reports the rest of the
+// underlying storage (as a Len of the whole backing buffer would).
+type overLen struct {
+	io.Reader
+	extra int
+}
+
+func (o *overLen) Len() int { return o.Reader.(*bytes.Reader).Len() + o.extra }
